@@ -317,4 +317,26 @@ CHECKS = {
                         "request's end-of-stream"],
         "selftest": False,
     },
+    "C17": {
+        "level": "exploration",
+        "level_text": "seeded histories of 17 kinds of open/dial/ping/accept/close operations (datagram sockets and stream listeners with and "
+                      "without advertisement, successful / cancelled / refused dials, double Close, Close+CloseConnection, pings to known and "
+                      "unknown nodes) on two real nodes with real QUIC, with bursts of remote and local senders in flight towards a socket at "
+                      "the instant it is closed and seeded pauses inside the lookup-to-delivery window; a crash or lock cycle is a violation; "
+                      "after everything is closed and 50 s (QUIC idle timeout + margin) have passed the listener registries must be empty "
+                      "and the goroutines of receptor/quic-go code must be back at the baseline; after Shutdown none may remain and nothing "
+                      "may be sent",
+        "level_note": "goroutines started by the application (readers, acceptors) are not counted; the leak criterion is absolute (baseline), "
+                      "which is stricter than 'does not grow with history'",
+        "quick": {"runs": 400, "per_proc": 25},
+        "thorough": {"runs": 20000, "per_proc": 50},
+        "hang_is_violation": True,
+        "proc_timeout": 300,
+        "rule": "one run = 5-40 operations, finished either by closing everything or by Shutdown with objects open; distinct_nontrivial counts "
+                "distinct (ending, operation-kind set) classes",
+        "real": MESH_REAL + ["quic-go fork (clock reads skewed by 1 ns)", "pkg/netceptor conn.go, packetconn.go, ping.go", "pkg/utils broker"],
+        "stub": MESH_STUB,
+        "assumptions": [],
+        "selftest": False,
+    },
 }
